@@ -10,7 +10,7 @@
    the calls the code makes on that state (same items applied).  IterBatchUpd/IterBatchDel are the two
    IterBatched variants (batch callbacks, error answers, partial batches); DesSetMany is a bulk Desired().Set. *)
 From Coq Require Import List NArith ZArith Bool.
-From Verif.C18 Require Import Model Spec Proofs Cache.
+From Verif.C18 Require Import Model Spec Proofs Cache Meets.
 Import ListNotations.
 Open Scope N_scope.
 
@@ -158,3 +158,25 @@ Theorem c18_cache_failed_delete_stays_pending : forall (V : Type) (veq : V -> V 
   pd_get V (c_t (fst (c_del V veq fixed lf tr c))) k = pd_get V (c_t c) k.
 Proof. exact failed_delete_stays_pending. Qed.
 Print Assumptions c18_cache_failed_delete_stays_pending.
+
+(* ---------- the boolean oracle used on the implementation accepts every run of the model ----------
+   tvalid: for the pinned code no Replace iterator yields a key twice; IterBatched records are the calls the code
+   makes; the iteration records carried by the operations are genuine (each key shown once, pending with the value
+   shown, complete unless a stop was requested).  kd ranges over all kinds (==, coarse equivalence, set). *)
+Theorem c18_model_meets_spec : forall (fixed : bool) (kd : kind) (univ : list N) (ops : list (op N)),
+  tvalid fixed kd (st0 N) ops ->
+  ok_trace kd univ (map COp ops) (run_obs fixed kd univ (cst0 N) (map COp ops)) = true.
+Proof. exact model_meets_spec. Qed.
+Print Assumptions c18_model_meets_spec.
+
+(* CachingMap runs (valuesEqual = identity): Desired() changes, LoadCacheFromDataplane, ApplyUpdatesOnly /
+   ApplyDeletionsOnly / ApplyAllChanges with arbitrary injected failures; the ApplyAllChanges records cover every
+   pending key.  PARTIAL: runs that also write the dataplane map behind the cache's back (ExtSet/ExtDel) or use
+   Dataplane()-side tracker operations are exercised by the correspondence run but are not covered by this theorem
+   (cop_ok excludes them). *)
+Theorem c18_model_meets_spec_cache_partial : forall (fixed : bool) (kd : kind) (univ : list N) (ops : list (cop N)),
+  (forall a b, veq_of kd a b = true -> a = b) ->
+  cvalid fixed kd (cst0 N) ops ->
+  ok_trace kd univ ops (run_obs fixed kd univ (cst0 N) ops) = true.
+Proof. exact model_meets_spec_cache. Qed.
+Print Assumptions c18_model_meets_spec_cache_partial.
